@@ -42,7 +42,13 @@ fn answers<T: HLabel>(
         }
         // one entry per problem: the CLI dispatch (DC-PR via Complete, DS-CO via Grounded, ...)
         let enc = if t.ty == SolverType::Grounded { Enc::None } else { *enc_choice.get(&t.problem()).unwrap_or(&t.ty.encoders(t.kind)[0]) };
-        let qs: Vec<Vec<usize>> = if t.kind == QKind::SE { vec![vec![]] } else { queried.iter().map(|a| vec![*a]).collect() };
+        let mut qs: Vec<Vec<usize>> = if t.kind == QKind::SE { vec![vec![]] } else { queried.iter().map(|a| vec![*a]).collect() };
+        // on the base presentation also two lists (a pair and a triple of the queried arguments):
+        // a list is answered as the disjunction of its members, under every semantics
+        if with_se && t.kind != QKind::SE && queried.len() >= 5 && t.sem == t.ty.sem() {
+            qs.push(vec![queried[0], queried[1]]);
+            qs.push(vec![queried[2], queried[3], queried[4]]);
+        }
         for args in qs {
             let q = Query { kind: t.kind, args: args.clone(), cert: false };
             let h = monitor::new_handle();
@@ -298,6 +304,20 @@ fn eval_base(ctx: &mut Ctx, case: &StaticCase, rng: &mut Rng) {
         }
         if let (Some(i), Some(ds)) = (status(&ref_ans, "DC-ID", *a), status(&ref_ans, "DS-PR", *a)) {
             rel(ctx, "ideal-implies-skeptically-preferred", !i || ds, json!({"argument": a, "DC-ID": i, "DS-PR": ds}));
+        }
+    }
+    // ---- lists: credulous = OR of the members' statuses, skeptical >= OR of the members' statuses ----
+    for ((p, args), a) in ref_ans.iter() {
+        if args.len() < 2 {
+            continue;
+        }
+        if let Ans::Status(b) = a {
+            let members: Vec<Option<bool>> = args.iter().map(|x| status(&ref_ans, p, *x)).collect();
+            if members.iter().all(|m| m.is_some()) {
+                let any = members.iter().any(|m| *m == Some(true));
+                let ok = if p.starts_with("DC") { *b == any } else { *b || !any };
+                rel(ctx, "list-answered-as-disjunction-of-its-members", ok, json!({"problem": p, "list": args, "status_of_list": b, "statuses_of_members": members}));
+            }
         }
     }
     // ---- exact oracle where one exists at this size ----
